@@ -528,6 +528,16 @@ def c12d(ctx, tu):
                 ok = A["get_lock"] in names
                 ctx.ob("C12.d.lock", f.qe, ok, pattern=short_loc(e.get("loc", "")), unit=tu.name,
                        detail="" if ok else "lock object in %s is not obtained from get_lock()" % f.qe)
+    # the one lock is one per process: what get_lock() locks has static storage duration and is not thread_local
+    for fn in tu.find(A["get_lock"]):
+        if not fn.has_body:
+            continue
+        tls = [e for b, e in fn.events() if e["e"] == "decl" and e.get("tls")]
+        tls += [t for b, e in fn.events() for t in lib.subtrees(e.get("x") if e["e"] == "return" else e.get("args"))
+                if isinstance(t, list) and t[:1] == ["gvar"] and "tls" in t[3:]]
+        ctx.ob("C12.d.global", A["get_lock"], not tls, pattern=fn.pat, unit=tu.name, inst=fn.q,
+               detail="" if not tls else "get_lock() locks a thread_local object: every thread has its own mutex, "
+               "so nothing excludes two threads from the library's shared state")
     # class fields of synchronisation types
     for c in tu.classes.values():
         if not c["q"].startswith(NS) or c.get("incomplete"):
